@@ -41,6 +41,7 @@ class Glue:
             ex.hooks['(*' + FP + '.decimal).set'] = self.h_set
             ex.hooks['(*' + FP + '.decimal).floatBits'] = self.h_floatbits
         ex.hooks[FP + '.vAssertGlueValue'] = self.h_assert_value
+        ex.hooks[FP + '.vAssertScanValue'] = self.h_assert_scan
         ex.hooks[FP + '.vGlueOverflows'] = self.h_overflows
         ex.glue = self
 
@@ -103,9 +104,38 @@ class Glue:
         return c
 
     # -- exact value of a literal with symbolic digits ------------------------
-    def literal_value(self, cells):
-        """(num expr, den const, negative?) ; the skeleton ('-', '.', 'e', exponent digits) must be concrete"""
+    def known(self, st, c):
+        """the set of values the path condition leaves for byte cell c (a 256-bit mask)"""
+        if c.__class__ is not Term:
+            return 1 << c
+        if st is None or c.op != 'var':
+            return (1 << 256) - 1
+        v = self.ex.store.vars[c.args[0]]
+        if v.kind != 'byte':
+            return (1 << 256) - 1
+        return self.ex._project(st.pc, v.order) if st.pc is not None and st.pc.idx >= 0 else (1 << 256) - 1
+
+    def literal_value(self, cells, st=None):
+        """(num expr, den const, negative?, side). The skeleton ('-', '.', 'e'/'E', exponent sign and
+        digits) must be determined - either concrete or pinned by the path condition"""
         lia = self.lia
+        DIG = sum(1 << d for d in range(48, 58))
+        EE = (1 << ord('e')) | (1 << ord('E'))
+        fixed = []
+        for c in cells:
+            if c.__class__ is Term:
+                m = self.known(st, c)
+                if m & (m - 1) == 0 and m:
+                    fixed.append(m.bit_length() - 1)
+                elif m & ~EE == 0:
+                    fixed.append(ord('e'))
+                elif m & ~DIG == 0:
+                    fixed.append(c)
+                else:
+                    raise NotImplementedError('literal byte not determined by the path')
+            else:
+                fixed.append(c)
+        cells = tuple(fixed)
         side = []
         i = 0
         n = len(cells)
@@ -177,6 +207,60 @@ class Glue:
             return e * A, B, neg, list(side), hi * A // B + 1
         raise NotImplementedError(desc[1])
 
+    def h_assert_scan(self, ex, st, fr, ins, args):
+        """tier 1 interface contract, stated semantically: with v the exact value of the literal,
+        !trunc => mant*10^exp == |v| ;  trunc => mant*10^exp <= |v| < (mant+1)*10^exp ; neg = sign"""
+        from .terms import sgn
+        lit, mant, exp, neg, trunc, idv = args
+        aid = bytes(idv[1]).decode()
+        rec = self.ses.asserts.setdefault(aid, [0, 0])
+        if exp.__class__ is Term or trunc.__class__ is Term or neg.__class__ is Term:
+            rec[0] += 0
+            self.ses.reach['C04.scan-value-skipped(symbolic exponent)'] = self.ses.reach.get('C04.scan-value-skipped(symbolic exponent)', 0) + 1
+            return None
+        cells = tuple(ex.slice_cells(st, lit))
+        try:
+            vnum, vden, vneg, vside = self.literal_value(cells, st)
+        except NotImplementedError:
+            self.ses.reach['C04.scan-value-skipped(undetermined skeleton)'] = self.ses.reach.get('C04.scan-value-skipped(undetermined skeleton)', 0) + 1
+            return None
+        lia = self.lia
+        e10 = sgn(exp, 64)
+        if abs(e10) > 5000:
+            return None      # saturated exponent: value is astronomically large/small either way
+        if mant.__class__ is Term:
+            m, _, _, mside = lia.conv(mant)
+        else:
+            m, mside = z3.IntVal(mant), ()
+        A, B = 10 ** max(e10, 0), 10 ** max(-e10, 0)
+        # compare m*A/B with vnum/vden
+        lhs = m * A * vden
+        rhs = vnum * B
+        if trunc:
+            bad = z3.Or(lhs > rhs, (m + 1) * A * vden <= rhs)
+        else:
+            bad = lhs != rhs
+        bad = z3.Or(bad, z3.BoolVal(bool(neg) != vneg))
+        r = lia.check(st.pc, st.extras, (), raw=list(st.raw) + list(vside) + list(mside) + [bad])
+        self.ses.obligations = getattr(self.ses, 'obligations', 0) + 1
+        if r == 'unsat':
+            rec[0] += 1
+            return None
+        badst = st.fork()
+        badst.status = 'assertfail'
+        badst.result = (aid, ins['pos'])
+        if r == 'sat':
+            assign = lia.model_assign()
+            for v in ex.store.vars:
+                if v.kind == 'byte':
+                    badst.pc = ex.mdd.and_byte(badst.pc, v.order, 1 << (assign.get(v.idx, 0) & 255))
+        else:
+            badst.inexact = True
+        if badst.pc is not None:
+            ex.finish(badst)
+            rec[1] += 1
+        return None
+
     # -- the obligation --------------------------------------------------------
     def h_assert_value(self, ex, st, fr, ins, args):
         lit, fval, idv = args
@@ -185,7 +269,7 @@ class Glue:
         cells = tuple(ex.slice_cells(st, lit))
         desc = fval[1] if fval.__class__ is tuple and fval[0] == 'D' else fval
         lia = self.lia
-        vnum, vden, vneg, vside = self.literal_value(cells)
+        vnum, vden, vneg, vside = self.literal_value(cells, st)
         results = []
         if desc.__class__ is tuple and desc[0] == 'GR' and desc[1] == 'dec':
             # the fallback's contract applies to the literal it was given: must be this literal
